@@ -201,8 +201,9 @@ KNOWN_DEVS = ('subword-prefix-accepted', 'foreign-literal-stops-walk', 'longer-c
               'last-word-skipped-at-command-point')
 
 
-def explore_config(ast, probes, table, resolver, R0, K, L, alphabet, wb, max_paths, devs=KNOWN_DEVS, sample_every=7, only_matched=False, deadline=None, check_log=False):
+def explore_config(ast, probes, table, resolver, R0, K, L, alphabet, wb, max_paths, devs=KNOWN_DEVS, sample_every=7, only_matched=False, deadline=None, check_log=False, cross_every=0):
     eng = sym.Engine(max_paths=max_paths, deadline=deadline)
+    eng.cross_every = cross_every
     ws = [Word('w%d' % i, L, alphabet) for i in range(1, K + 1)]
     pw = Word('p', L, alphabet)
     base = []
@@ -353,7 +354,7 @@ def analyse(job):
             for K in range(0, job['K'] + 1):
                 r = explore_config(ast, probes, table, resolver, R0, K, L, alphabet, wb, job['max_paths'],
                                    devs=job.get('devs', KNOWN_DEVS), only_matched=job.get('only_matched', False), deadline=deadline,
-                                   check_log=job.get('check_log', False))
+                                   check_log=job.get('check_log', False), cross_every=job.get('cross_every', 0))
                 res['paths'] += r['paths']
                 res['solver_s'] += r['solver_s']
                 for k, v in r['queries'].items():
